@@ -1842,12 +1842,13 @@ func ruleQueryStringsWhole(c *chk.Ctx) {
 // another request's slot.
 func ruleReplyKeyWhole(c *chk.Ctx, table *types.Var, what string) {
 	n := 0
-	for _, f := range pkgFuncs(c, c.M.Pkg) {
-		ir.Instrs(f, func(ins ssa.Instruction) {
-			lk, ok := ins.(*ssa.Lookup)
-			if !ok || !chk.LoadsField(lk.X, table) {
-				return
-			}
+	for _, vl := range tableLookups(c, table) {
+		f := vl.fn
+		func() {
+			lk := struct {
+				Index ssa.Value
+				pos   token.Pos
+			}{vl.key, vl.at.Pos()}
 			stop := func(v ssa.Value) bool {
 				switch x := v.(type) {
 				case *ssa.Slice:
@@ -1878,8 +1879,8 @@ func ruleReplyKeyWhole(c *chk.Ctx, table *types.Var, what string) {
 				return
 			}
 			n++
-			c.Check(len(bad) == 0, "TOKEN.key", f, what+": reply matched by its whole id", lk.Pos(), "the look-up key is the message's id text as a whole", "the key used to match a reply is "+strings.Join(bad, ", ")+" rather than the id text itself: a reply bearing a different id (\"7\" for 7) would be taken for the pending request's reply")
-		})
+			c.Check(len(bad) == 0, "TOKEN.key", f, what+": reply matched by its whole id", lk.pos, "the look-up key is the message's id text as a whole", "the key used to match a reply is "+strings.Join(bad, ", ")+" rather than the id text itself: a reply bearing a different id (\"7\" for 7) would be taken for the pending request's reply")
+		}()
 	}
 	if n == 0 {
 		c.Undecided("TOKEN.key", nil, what+": reply key", 0, "no look-up of an inbound id found")
